@@ -126,16 +126,30 @@ def run_oracle(scn, tr):
     # the other ways a dict takes new keys
     for how, key, fn in (("update", "no_such_field2", lambda: r.update({"no_such_field2": 1})),
                          ("update-kw", "no_such_field3", lambda: r.update(no_such_field3=1)),
-                         ("setdefault", "no_such_field4", lambda: r.setdefault("no_such_field4", 1))):
+                         ("setdefault", "no_such_field4", lambda: r.setdefault("no_such_field4", 1)),
+                         ("ior", "no_such_field5", lambda: r.__ior__({"no_such_field5": 1})),
+                         ("setattr", "no_such_field6", lambda: setattr(r, "no_such_field6", 1))):
         try:
             fn()
         except ValueError:
             pass
         except Exception as e:  # noqa: BLE001
             v.append(viol("result:unknown-key-wrong-exception", f"{how}: {type(e).__name__}", site=how))
-        if key in dict.keys(r):
+        if key in dict.keys(r) or key in vars(r):
             v.append(viol("result:unknown-key-writable", f"r.{how}(...) added the unknown key {key!r}", site=how))
             dict.pop(r, key, None)
+            vars(r).pop(key, None)
+    # attribute assignment and item assignment are the same thing (as in scipy's OptimizeResult)
+    old_fc = r["func_count"]
+    try:
+        r.func_count = old_fc + 1000
+        if r["func_count"] != r.func_count:
+            v.append(viol("result:key-attribute-differ", f"after r.func_count = {old_fc + 1000}: r['func_count']={r['func_count']!r}, r.func_count={r.func_count!r}",
+                          site="setattr"))
+    except Exception as e:  # noqa: BLE001
+        v.append(viol("result:field-not-writable-by-attribute", f"{type(e).__name__}: {e}", site="setattr"))
+    vars(r).pop("func_count", None)
+    r["func_count"] = old_fc
     # copies
     bx = np.array(b.x, copy=True)
     rx0 = np.array(r["x"], copy=True)
